@@ -231,6 +231,8 @@ class Holder:
         h["ab"] = None
 
     def _check_one(self, h: dict[str, Any], when: str) -> None:
+        if h.get("changed"):
+            return
         b = h["ab"].batch
         try:
             same = b.equals(h["copy"])
@@ -239,15 +241,15 @@ class Holder:
             self.problems.append((f"held_batch_unreadable/{h['where']}", f"{when}: {type(e).__name__}: {e}"))
             return
         if not same:
-            got = fast_norm(b.to_pydict())
+            # the changed batch is not decoded (corrupted offsets could point anywhere): report what it was
             want = fast_norm(h["copy"].to_pydict())
             self.problems.append(
                 (
                     f"held_batch_changed/{h['where']}/{'shm' if h['shm'] else 'inline'}",
-                    f"{when}: unreleased batch changed under the client: had {str(want)[:300]} now {str(got)[:300]}",
+                    f"{when}: a batch the client has not released no longer equals its private copy ({h['copy'].num_rows} rows, was {str(want)[:300]})",
                 )
             )
-            h["copy"] = private_copy(b)  # report each change once
+            h["changed"] = True  # report each change once
 
     def check_stable(self, when: str) -> None:
         for h in self.live:
@@ -364,6 +366,35 @@ def run_history(
             )
         facts["leaked"] += got - want  # judge later calls relative to what is already known
 
+    if shm:
+        # server-side probe: what the allocator looks like while the implementation's method body runs
+        def probe(ev: dict[str, Any]) -> None:
+            ev["allocs"] = link.allocs()
+            ev["n_writes"] = link.seg.n_writes
+
+        RT.HOOKS[run_id] = probe
+    try:
+        return _run_history(link, protocol, spec, raw, policy, run_id, holder, obs_list, problems, facts, settle)
+    finally:
+        RT.HOOKS.pop(run_id, None)
+
+
+def _run_history(
+    link: Link,
+    protocol: type,
+    spec: dict[str, Any],
+    raw: list[bool],
+    policy: dict[str, Any],
+    run_id: str,
+    holder: Holder,
+    obs_list: list[dict[str, Any]],
+    problems: list[tuple[str, str]],
+    facts: dict[str, Any],
+    settle: Any,
+) -> dict[str, Any]:
+    from vgi_rpc.rpc import AnnotatedBatch, RpcError
+
+    shm = link.seg is not None
     for ci, call in enumerate(spec["calls"]):
         m = spec["methods"][call["mid"]]
         kind = m["kind"]
@@ -418,7 +449,27 @@ def run_history(
                 try:
                     for rows in call["inputs"]:
                         ib = RT.batch_of(m["in_cols"], rows)
-                        ab = session.exchange(AnnotatedBatch(batch=ib))
+                        if call.get("bad_input") == len(obs["batches"]):
+                            ib = ib.rename_columns([ib.schema.names[0] + "_x"] + ib.schema.names[1:])
+                        w0 = link.seg.n_writes if shm else 0
+                        e0 = len(RT.INVOCATIONS[run_id])
+                        held_before = holder.expected_allocs
+                        try:
+                            ab = session.exchange(AnnotatedBatch(batch=ib))
+                        finally:
+                            # the input's region must still be allocated while process() runs on it
+                            evs = [e for e in RT.INVOCATIONS[run_id][e0:] if e["ev"] == "exchange" and "allocs" in e]
+                            if shm and evs:
+                                sent_via_shm = evs[0]["n_writes"] - w0
+                                want_live = held_before + facts["leaked"] + sent_via_shm
+                                if evs[0]["allocs"] != want_live:
+                                    problems.append(
+                                        (
+                                            "input_region_not_live_during_process" if evs[0]["allocs"] < want_live else "extra_region_during_process",
+                                            f"call#{ci} exchange {len(obs['batches']) + 1}: while process() ran {evs[0]['allocs']} regions were "
+                                            f"allocated; client holds {held_before}, input sent through shm: {bool(sent_via_shm)}",
+                                        )
+                                    )
                         obs["batches"].append(norm_batch(ab))
                         holder.receive(ab, "exchange")
                         del ab
@@ -446,9 +497,11 @@ def run_history(
         if obs["error"] is not None:
             init_failed = kind != "unary" and m["init"]["action"]["op"] != "ok"
             outcome = "init_error" if init_failed else "error"
+            if kind == "exchange" and not init_failed and call.get("bad_input") == len(obs["batches"]):
+                outcome = "rejected_input"
         obs["logs"] = [transports.norm_log(x) for x in link.logs[n0:]]
         obs_list.append(obs)
-        tag = f"{kind}/{outcome}" + ("" if outcome == "init_error" else f"/end={end}") + ("/raw" if obs["raw"] else "")
+        tag = f"{kind}/{outcome}" + ("" if outcome in ("init_error", "rejected_input") else f"/end={end}") + ("/raw" if obs["raw"] else "")
         settle(tag, f"after call#{ci} ({kind} {m['name']}, end={end}, {outcome})")
         holder.check_stable(f"after call#{ci}")
     # end of history: release everything still held; the segment must be empty
